@@ -277,3 +277,54 @@ pub open spec fn dir_ins_spec<P: Prefix, T>(t: Seq<Node<P, T>>, cur: int, q: Seq
             },
     }
 }
+
+// ---- one step of a descent towards q (shared by every reader and by the mutators' search loops) ----
+
+/// live node n lies strictly below idx on the path to q
+pub open spec fn on_path_below<P: Prefix, T>(t: Seq<Node<P, T>>, live: ISet<int>, idx: int, q: Seq<bool>, n: int) -> bool {
+    live.contains(n) && spre(kb(t, idx), kb(t, n)) && pre(kb(t, n), q)
+}
+
+pub open spec fn step_bounds<P: Prefix, T>(t: Seq<Node<P, T>>, live: ISet<int>, idx: int) -> bool {
+    0 <= idx < t.len() && kb(t, idx).len() <= 255
+        && (forall|s: bool| #![trigger chd(t, idx, s)] chd(t, idx, s).is_some() ==> chd(t, idx, s).unwrap() < t.len()
+                && live.contains(chd(t, idx, s).unwrap() as int)
+                && spre(kb(t, idx), kb(t, chd(t, idx, s).unwrap() as int))
+                && kb(t, chd(t, idx, s).unwrap() as int)[kb(t, idx).len() as int] == s)
+}
+
+pub proof fn lemma_step<P: Prefix, T>(t: Seq<Node<P, T>>, live: ISet<int>, idx: int, q: Seq<bool>)
+    requires twf_live(t, live), live.contains(idx), pre(kb(t, idx), q)
+    ensures
+        step_bounds(t, live, idx),
+        // the path ends here: nothing live lies below idx on the way to q
+        ({
+            let s = next_bit(kb(t, idx), q);
+            kb(t, idx) =~= q || chd(t, idx, s).is_none() || !pre(kb(t, chd(t, idx, s).unwrap() as int), q)
+        }) ==> (forall|n: int| !#[trigger] on_path_below(t, live, idx, q, n)),
+        // the path continues into c: everything below idx on the path is at or below c
+        ({
+            let s = next_bit(kb(t, idx), q);
+            !(kb(t, idx) =~= q) && chd(t, idx, s).is_some() && pre(kb(t, chd(t, idx, s).unwrap() as int), q)
+        }) ==> (forall|n: int| #[trigger] on_path_below(t, live, idx, q, n) ==>
+                    pre(kb(t, chd(t, idx, next_bit(kb(t, idx), q)).unwrap() as int), kb(t, n))),
+        // uniqueness of keys
+        forall|n: int| live.contains(n) && kb(t, n) =~= kb(t, idx) ==> n == idx,
+{
+    lemma_glob(t, live);
+    assert forall|s: bool| #![trigger chd(t, idx, s)] chd(t, idx, s).is_some() implies chd(t, idx, s).unwrap() < t.len()
+                && live.contains(chd(t, idx, s).unwrap() as int)
+                && spre(kb(t, idx), kb(t, chd(t, idx, s).unwrap() as int))
+                && kb(t, chd(t, idx, s).unwrap() as int)[kb(t, idx).len() as int] == s by {
+        assert(child_ok(t, live, idx, s));
+    }
+    let s = next_bit(kb(t, idx), q);
+    assert forall|n: int| #[trigger] on_path_below(t, live, idx, q, n) implies
+        !(kb(t, idx) =~= q) && chd(t, idx, s).is_some() && pre(kb(t, chd(t, idx, s).unwrap() as int), kb(t, n)) by {
+        assert(live.contains(idx) && live.contains(n));
+        assert(desc_ok(t, live, idx, n));
+    }
+    assert forall|n: int| live.contains(n) && kb(t, n) =~= kb(t, idx) implies n == idx by {
+        assert(live.contains(n) && live.contains(idx));
+    }
+}
